@@ -19,4 +19,9 @@ Init ==
 
 Spec == Init /\ [][NextLoop]_vars /\ WF_vars(NextLoop)
 Terminates == <>done
+
+\* the loop refines the cursor abstraction whose termination Apalache proves for ALL sizes (LoopTermination.tla);
+\* the pinned loop (Shipped) has no at-least-one-row guard
+Abs == INSTANCE LoopTermination WITH Guard <- ~Shipped, idx <- index - 1, mi <- mi, nrows <- N - 1, nmeas <- Len(Mts) - 1, fin <- done
+RefinesAbstraction == Abs!ASpec
 =============================================================================
